@@ -88,15 +88,15 @@ theorem labelOk_pcOf (v : Word) (n : Nat) (h1 : v.toNat % 4 = 0) (h2 : v.toNat /
   rw [this]
   exact (Nat.mod_eq_of_lt v.isLt).symm
 
-theorem g_memoryRead (app : App) (i : Gen.Instr) (h : gInstr app i = true) (c : Model.Context) (seq : Word) :
+theorem g_memoryRead (app : App) (i : Gen.Instr) (h : jInstr app i = true) (c : Model.Context) (seq : Word) :
     i.memoryRead c seq = [] := by
-  unfold gInstr at h
+  unfold jInstr at h
   cases i <;> unfold_instr at h ⊢ <;> first | rfl | (simp [isMemType] at h)
 
 /-- the label of a conditional branch of the class is the address of an instruction (or of the end) -/
-theorem get_label (app : App) (i : Gen.Instr) (l : String) (h : gInstr app i = true) (hl : labelOf i = some l) :
+theorem get_label (app : App) (i : Gen.Instr) (l : String) (h : jInstr app i = true) (hl : labelOf i = some l) :
     ∃ k, k ≤ app.instrs.length ∧ GoMap.get app.labels l = (pcOf k, true) := by
-  simp only [gInstr, labelOk, hl, Bool.and_eq_true] at h
+  simp only [jInstr, labelOk, hl, Bool.and_eq_true] at h
   obtain ⟨_, h⟩ := h
   unfold GoMap.get
   cases hf : app.labels.find? l with
@@ -108,13 +108,14 @@ theorem get_label (app : App) (i : Gen.Instr) (l : String) (h : gInstr app i = t
     exact ⟨v.toNat / 4, e2, by rw [← e1]⟩
 
 set_option maxHeartbeats 4000000 in
-theorem g_run (app : App) (i : Gen.Instr) (h : gInstr app i = true) (c : Model.Context) (pc : Word)
+theorem g_run (app : App) (i : Gen.Instr) (h : jInstr app i = true) (c : Model.Context) (pc : Word)
     (mem : List Byte) (seq : Word) (e : Gen.Execution) (hr : i.run c app.labels pc mem seq = .ok e) :
     e.MemoryChange = false ∧ (e.Return = true → (i.instructionType == Gen.InstructionType.Ret) = true) ∧
-    (e.PcChange = true → i.instructionType.IsConditionalBranch = true ∧ ∃ k, k ≤ app.instrs.length ∧ e.NextPc = pcOf k) := by
+    (e.PcChange = true → i.instructionType.IsBranch = true ∧
+      (labelOf i ≠ none → ∃ k, k ≤ app.instrs.length ∧ e.NextPc = pcOf k)) := by
   have hs := Proofs.Mvp4.run_shape i c app.labels pc mem seq e hr
   have hg := h
-  unfold gInstr at h
+  unfold jInstr at h
   refine ⟨?_, ?_, ?_⟩
   · cases i <;> unfold_instr at h hr <;>
       first
@@ -129,33 +130,71 @@ theorem g_run (app : App) (i : Gen.Instr) (h : gInstr app i = true) (c : Model.C
            (repeat' split at hr) <;> first | (injection hr with hr; subst hr; intro hc; cases hc) | (exact absurd hr (by simp)))
   · intro hp
     have hbt := hs.pcBranch hp
-    simp only [Bool.and_eq_true, Bool.not_eq_true'] at h
-    simp only [Proofs.Mvp4.isBranchType, h.1.2, Bool.false_or] at hbt
-    refine ⟨hbt, ?_⟩
-    cases i <;> unfold_instr at hbt hr <;>
+    refine ⟨by simpa only [Proofs.Mvp4.isBranchType, Gen.InstructionType.IsBranch] using hbt, ?_⟩
+    intro hl
+    cases i <;>
       first
-        | (simp [Gen.InstructionType.IsConditionalBranch] at hbt; done)
+        | (exact absurd rfl hl)
         | (rename_i op
            obtain ⟨k, hk, hget⟩ := get_label app _ op.label hg rfl
-           simp only [hget, Bool.not_true, Bool.false_eq_true, if_false, pure, Except.pure] at hr
-           split at hr
-           · injection hr with hr; subst hr; exact ⟨k, hk, rfl⟩
-           · injection hr with hr; subst hr; cases hp)
+           unfold_instr at hr
+           simp only [hget, Bool.not_true, Bool.false_eq_true, if_false, pure, Except.pure, Proofs.Mvp4.isRegisterChange_eq] at hr
+           first
+             | (injection hr with hr; subst hr; exact ⟨k, hk, rfl⟩)
+             | (split at hr
+                · injection hr with hr; subst hr; exact ⟨k, hk, rfl⟩
+                · injection hr with hr; subst hr; cases hp))
+
+theorem labelOf_cond (i : Gen.Instr) (h : i.instructionType.IsConditionalBranch = true) : labelOf i ≠ none := by
+  cases i <;> first | (unfold_instr at h; simp [Gen.InstructionType.IsConditionalBranch] at h; done) | (intro hc; cases hc; done)
+
+/-- the target of every control transfer the unpipelined machine takes from `a` is an instruction of the program (or its
+end).  For `j`, `jal` and the conditional branches this follows from the well-formed labels; for `jalr` it is a property of
+the run (the specification calls a run with another target not well-formed). -/
+def TgtOk (app : App) (a : Arch) : Prop :=
+  ∀ n0 i e, a.pc = pcOf n0 → app.instrs[n0]? = some i → i.run a.ctx app.labels a.pc [] 0#32 = .ok e → e.PcChange = true →
+    ∃ k, k ≤ app.instrs.length ∧ e.NextPc = pcOf k
+
+theorem tgtOk_of_labels (app : App) (hall : ∀ i ∈ app.instrs, jInstr app i = true)
+    (hl : ∀ i ∈ app.instrs, i.instructionType.IsUnconditionalBranch = true → labelOf i ≠ none) (a : Arch) : TgtOk app a := by
+  intro n0 i e _ hi he hp
+  have hmem : i ∈ app.instrs := List.mem_of_getElem? hi
+  obtain ⟨_, _, h3⟩ := g_run app i (hall i hmem) a.ctx a.pc [] 0#32 e he
+  obtain ⟨hb, ht⟩ := h3 hp
+  apply ht
+  cases hu : i.instructionType.IsUnconditionalBranch with
+  | true => exact hl i hmem hu
+  | false =>
+    simp only [Gen.InstructionType.IsBranch, hu, Bool.false_or] at hb
+    exact labelOf_cond i hb
+
+/-- a jump always changes the pc (and is not a `ret`) -/
+theorem jump_run (labels : GoMap String Word) (i : Gen.Instr) (hj : i.instructionType.IsUnconditionalBranch = true)
+    (c : Model.Context) (pc : Word) (mem : List Byte) (seq : Word) (e : Gen.Execution) (hr : i.run c labels pc mem seq = .ok e) :
+    e.PcChange = true ∧ e.Return = false := by
+  cases i <;> unfold_instr at hj hr <;>
+    first
+      | (simp [Gen.InstructionType.IsUnconditionalBranch] at hj; done)
+      | (simp only [Proofs.Mvp4.isRegisterChange_eq, pure, Except.pure, bind, Except.bind, throw, throwThe, MonadExceptOf.throw] at hr
+         first
+           | (injection hr with hr; subst hr; exact ⟨rfl, rfl⟩)
+           | (split at hr
+              · cases hr
+              · injection hr with hr; subst hr; exact ⟨rfl, rfl⟩))
 
 /-- an instruction of the class other than `div`/`rem` cannot fail, whatever the registers hold -/
-theorem g_run_ok (app : App) (i : Gen.Instr) (h : gInstr app i = true) (hd : isDivRem i.instructionType = false)
+theorem g_run_ok (app : App) (i : Gen.Instr) (h : jInstr app i = true) (hd : isDivRem i.instructionType = false)
     (c : Model.Context) (pc : Word) (mem : List Byte) (seq : Word) : ∃ e, i.run c app.labels pc mem seq = .ok e := by
   have hg := h
-  unfold gInstr at h
+  unfold jInstr at h
   cases i <;> unfold_instr at h hd ⊢ <;>
     first
       | (simp [isMemType] at h; done)
       | (simp [isDivRem] at hd; done)
-      | (simp [Gen.InstructionType.IsUnconditionalBranch] at h; done)
       | (rename_i op
          obtain ⟨k, hk, hget⟩ := get_label app _ op.label hg rfl
-         simp only [hget, Bool.not_true, Bool.false_eq_true, if_false, pure, Except.pure]
-         split <;> exact ⟨_, rfl⟩)
+         simp only [hget, Bool.not_true, Bool.false_eq_true, if_false, pure, Except.pure, Proofs.Mvp4.isRegisterChange_eq]
+         first | exact ⟨_, rfl⟩ | (split <;> exact ⟨_, rfl⟩))
       | (simp only [Proofs.Mvp4.isRegisterChange_eq, pure, Except.pure, Proofs.Mvp4.ite_ok, Proofs.Mvp4.ite_pair, ite_self, bind, Except.bind]
          first | exact ⟨_, rfl⟩ | (split <;> exact ⟨_, rfl⟩))
 
@@ -506,12 +545,12 @@ theorem Back.executeR {app : App} {ctx : Model.Context} {W : List ExecCtx} {x : 
 when the branch is taken) -/
 theorem Back.executeG {app : App} {ctx : Model.Context} {W : List ExecCtx} {x : Runner} {X : List Runner} {a : Arch} {n0 : Nat}
     (hb : Back ctx W (x :: X) a) (hsm : app.instrs.length < 250) (hpc : a.pc = pcOf n0) (hx : RunnerOk app x n0)
-    (hsl : gInstr app x.instr = true) (hnf : fwdOf x.instr = {}) :
+    (hsl : jInstr app x.instr = true) (hnf : fwdOf x.instr = {}) (hT : TgtOk app a) :
     (∀ e, x.instr.run ctx app.labels x.pc [] 0#32 = .ok e → e.Return = false →
       ∃ a' n', (∃ c, stepArch Proofs.Mvp4.dc app a = .next a' c) ∧ a'.pc = pcOf n' ∧ n' ≤ app.instrs.length ∧
         Back ctx (W ++ [ecOf x e]) X a' ∧ e.MemoryChange = false ∧
         (e.PcChange = false → n' = n0 + 1) ∧
-        (e.PcChange = true → e.NextPc = pcOf n' ∧ x.instr.instructionType.IsConditionalBranch = true)) ∧
+        (e.PcChange = true → e.NextPc = pcOf n' ∧ x.instr.instructionType.IsBranch = true)) ∧
     (∀ e, x.instr.run ctx app.labels x.pc [] 0#32 = .ok e → e.Return = true →
       (∃ c, stepArch Proofs.Mvp4.dc app a = .halt .ret c) ∧ (x.instr.instructionType == Gen.InstructionType.Ret) = true) ∧
     (∀ msg, x.instr.run ctx app.labels x.pc [] 0#32 = .error (.err msg) → ∃ c, stepArch Proofs.Mvp4.dc app a = .halt .err c) := by
@@ -533,7 +572,7 @@ theorem Back.executeG {app : App} {ctx : Model.Context} {W : List ExecCtx} {x : 
     obtain ⟨n', hn'le, hn'⟩ : ∃ n', n' ≤ app.instrs.length ∧ Proofs.Mvp4.nextPc a e = pcOf n' := by
       cases hp : e.PcChange with
       | true =>
-        obtain ⟨_, k, hk, hk'⟩ := hpcc hp
+        obtain ⟨k, hk, hk'⟩ := hT n0 x.instr e hpc hx.2 (by rw [← hrun]; exact he) hp
         exact ⟨k, hk, by simp only [Proofs.Mvp4.nextPc, hp, if_true, hk']⟩
       | false => exact ⟨n0 + 1, by omega, by simp only [Proofs.Mvp4.nextPc, hp, Bool.false_eq_true, if_false, hpc, pcOf_succ]⟩
     have hnf1 : e.PcChange = false → n' = n0 + 1 := by
@@ -545,7 +584,7 @@ theorem Back.executeG {app : App} {ctx : Model.Context} {W : List ExecCtx} {x : 
       have e1 : 4 * n' % 2 ^ 32 = 4 * n' := Nat.mod_eq_of_lt (by omega)
       have e2 : 4 * (n0 + 1) % 2 ^ 32 = 4 * (n0 + 1) := Nat.mod_eq_of_lt (by omega)
       omega
-    have hnf2 : e.PcChange = true → e.NextPc = pcOf n' ∧ x.instr.instructionType.IsConditionalBranch = true := by
+    have hnf2 : e.PcChange = true → e.NextPc = pcOf n' ∧ x.instr.instructionType.IsBranch = true := by
       intro hp
       refine ⟨?_, (hpcc hp).1⟩
       rw [← hn']; simp only [Proofs.Mvp4.nextPc, hp, if_true]
